@@ -24,6 +24,14 @@ type cWithBoth struct {
 	d  *cPlain
 }
 
+// Data() may legitimately return nothing at all (a nil interface): the document then carries no data, not the payload
+type cNilData struct{ v int }
+type cIDNilData struct{ id string }
+
+func (p *cNilData) Data() interface{}   { return nil }
+func (p *cIDNilData) ID() string        { return p.id }
+func (p *cIDNilData) Data() interface{} { return nil }
+
 func (p *cWithID) ID() string          { return p.id }
 func (p *cWithData) Data() interface{} { return p.d }
 func (p *cWithBoth) ID() string        { return p.id }
@@ -129,7 +137,15 @@ func H_C18_Process() {
 	pid := ""
 	hasID := false
 	var wantData interface{}
-	switch symLen(0, 3) {
+	switch symLen(0, 5) {
+	case 4:
+		e.Payload = &cNilData{}
+		wantData = nil
+	case 5:
+		pid = nondetString()
+		hasID = true
+		e.Payload = &cIDNilData{id: pid}
+		wantData = nil
 	case 0:
 		e.Payload = data
 		wantData = data
